@@ -22,13 +22,13 @@ LEVEL_NOTE = ("Determinism is a property of the runtime: half (B) is sampling, n
               "recycled LIFO and keep garbage); a replay with --only starts from a different heap history than the full run, so an "
               "address-dependent failure may need the full stream to reproduce. Nudged orthogonal display routes and VPSC positions come "
               "out of a floating division and are required to translate only up to 1e-9*scale (exactness is counted); raw routes must "
-              "translate exactly. Symmetries compare COSTS only (the route may differ among equal-cost alternatives).")
+              "translate exactly. Symmetries compare COSTS only (the route may differ among equal-cost alternatives). For ARBITRARY direction restrictions (tag route-symmetry-dirs-any) the unchanged library is not symmetric in about 7% of the generated scenes (one of two pins at the same position finds no path, which one depends on the frame; U-turns at a restricted free end are found in one frame and not in another); these are counted as STAT finding.dirs-any.* and NOT alarmed; only the documented configurations (outward-looking end on the outer edge of the scene, single pin on the scene-boundary side) are enforced.")
 TECHNIQUE = "Lean 4 invariance/uniqueness theorems (logic half) + run-twice / frame-change differential harness decided by an exact Lean driver (runtime half)"
 DESIGN_REF = "DESIGN.md section 6 C20"
-RULE = ("11 generator slots per round (250 rounds quick, 1200 thorough): route-twice polyline, route-twice orthogonal, vpsc-twice, layout-twice, "
+RULE = ("12 generator slots per round (250 rounds quick, 1200 thorough): route-twice polyline, route-twice orthogonal, vpsc-twice, layout-twice, "
         "removeoverlaps-twice (all centres distinct), removeoverlaps-coincident (groups of rectangles sharing a centre), route-translate, "
         "route-symmetry polyline, route-symmetry orthogonal (all 7 non-trivial symmetries per scene), vpsc-translate, vpsc-permute "
-        "(route-translate on orthogonal scenes carries the tag route-translate-orth). "
+        "(route-translate on orthogonal scenes carries the tag route-translate-orth), and route-symmetry-dirs: orthogonal scenes with DIRECTION-RESTRICTED ends, ConnDirFlags transformed with the frame, cost and axis-parallelism compared over the 8 frames (two rounds in three strict: one free end at / 1-2 units beyond the extreme min/max x or y of the whole scene looking outward only, or one pin at the midpoint of the shape side that is the scene boundary, buffer 0; one round in three tag route-symmetry-dirs-any: arbitrary restrictions, several pins, counted only). "
         "Scenes: 1-7 (thorough: up to 14) integer rectangles in grid cells, 1-7 connectors with ends on cell-border lines, segmentPenalty in "
         "{0,1,3,10,50}, shapeBufferDistance 0 or 1/2, "
         "optionally a shape move + second transaction. Between run A and run B of every *-twice case: heap scrambling, an unrelated router, an unrelated VPSC solve and unrelated libcola work touching process-global state (ConstrainedFDLayout with makeFeasible() default / non-default non-zero / one-sided borders + run(), overlap avoidance, cluster hierarchy; ConstrainedMajorizationLayout with overlap avoidance; removeoverlaps with fixed set and third pass); the static vpsc::Rectangle::xBorder/yBorder before and after each run are compared as extra observables. A *-twice case is non-trivial if the two runs saw different heap address "
